@@ -767,4 +767,31 @@ def gen(seed, tier):
         for toks in (["R%s:3" % OWN_ID.hex()], ["R%s:3" % OWN_ID.hex(), "R%s:4" % (b"\x70" * 20).hex()],
                      ["R%s:4" % (b"\x70" * 20).hex(), "R%s:3" % OWN_ID.hex()], ["R%s:3" % OWN_ID.hex(), "R%s:5" % OWN_ID.hex()]):
             add("DF-own", "DF %s %s %s %s m m s %s" % (OWN_ID.hex(), (b"\x77" * 20).hex(), kind, (b"\x22" * 20).hex(), " ".join(toks)))
+    # ---- a whole find_node search driven by the real DhtServer: several replies, own id offered again and again
+    for _ in range(250 if not thorough else 3000):
+        target = rb(r, 20)
+        ids = []
+        while len(ids) < 7:
+            c = near(target, r) if r.random() < 0.6 else rb(r, 20)
+            if c not in ids:
+                ids.append(c)
+        own = OWN_ID if r.random() < 0.5 else near(target, r)
+        if own in ids:
+            own = OWN_ID
+        kof = {c: 2 + j for j, c in enumerate(ids)}
+        kof[own] = 9
+        ninit = r.randrange(1, 5)
+        toks = ["I%s:%d" % (c.hex(), kof[c]) for c in ids[:ninit]]
+        named = list(ids[:ninit])
+        for _ in range(r.randrange(1, 8)):
+            resp = r.choice(named) if r.random() < 0.9 else r.choice(ids)
+            toks.append("E%s:%d" % (resp.hex(), kof[resp]))
+            for _ in range(r.randrange(0, 6)):
+                c = own if r.random() < 0.25 else r.choice(ids)
+                toks.append("R%s:%d" % (c.hex(), kof[c]))
+                if c != own and c not in named:
+                    named.append(c)
+            if r.random() < 0.2:
+                toks.append("X" + rb(r, r.randrange(1, 26)).hex())
+        add("DS", "DS %s %s %s" % (own.hex(), target.hex(), " ".join(toks)))
     return cases, stats
